@@ -33,6 +33,7 @@ import (
 	"net/http"
 	"net/http/httptest"
 	"net/url"
+	"os"
 	"path/filepath"
 	"reflect"
 	"runtime"
@@ -41,9 +42,11 @@ import (
 	"strings"
 	"sync"
 	"testing"
+	texttemplate "text/template"
 	"time"
 
 	"github.com/Cloud-Foundations/keymaster/keymasterd/admincache"
+	"github.com/Cloud-Foundations/keymaster/lib/pwauth/htpassword"
 	"github.com/Cloud-Foundations/keymaster/lib/webapi/v0/proto"
 	"github.com/duo-labs/webauthn/protocol"
 	"github.com/duo-labs/webauthn/webauthn"
@@ -365,7 +368,29 @@ func (tk *vfToken) coseKey() []byte {
 
 // ---------------------------------------------------------------- profiles with real token data
 
+// vfMailer is the configured e-mail manager of the harness: it records, it never sends.
+type vfMailer struct {
+	mu   sync.Mutex
+	sent int
+}
+
+func (m *vfMailer) SendMail(from string, to []string, msg []byte) error {
+	m.mu.Lock()
+	m.sent++
+	m.mu.Unlock()
+	return nil
+}
+
+func (m *vfMailer) take() int {
+	m.mu.Lock()
+	defer m.mu.Unlock()
+	n := m.sent
+	m.sent = 0
+	return n
+}
+
 type vfC15 struct {
+	mailer   *vfMailer
 	t        *testing.T
 	state    *RuntimeState
 	rawP     *sql.DB // harness' own unwrapped handles (digest, restore, clock shifts)
@@ -748,6 +773,31 @@ func vfC15Setup(t *testing.T) (*vfC15, func()) {
 		t.Fatal(err)
 	}
 	state.isAdminCache = admincache.New(time.Minute)
+	// configuration under which every profile-writing branch is reachable: self-service
+	// bootstrap OTP by e-mail (recording mailer), password logins for every harness user
+	state.Config.Base.AllowSelfServiceBootstrapOTP = true
+	state.Config.Base.HostIdentity = state.HostIdentity
+	state.Config.Email.Domain = "example.com"
+	h.mailer = &vfMailer{}
+	state.emailManager = h.mailer
+	state.textTemplates = texttemplate.New("text")
+	for _, text := range []string{emailAdminTemplateData, emailUserTemplateData} {
+		if _, err := state.textTemplates.Parse(text); err != nil {
+			t.Fatal(err)
+		}
+	}
+	var pw strings.Builder
+	hash := userdbContent[strings.Index(userdbContent, ":"):]
+	for i := 0; i < 1100; i++ {
+		pw.WriteString(vfUserName(i) + hash + "\n")
+	}
+	pwPath := filepath.Join(state.Config.Base.DataDirectory, "vf_htpasswd")
+	if err := os.WriteFile(pwPath, []byte(pw.String()), 0600); err != nil {
+		t.Fatal(err)
+	}
+	if state.passwordChecker, err = htpassword.New(pwPath, logger); err != nil {
+		t.Fatal(err)
+	}
 	state.Config.Base.AdminUsers = []string{"admin"}
 	state.Config.Base.AllowedAuthBackendsForWebUI = []string{proto.AuthTypeU2F, proto.AuthTypeTOTP, proto.AuthTypeBootstrapOTP}
 	return h, func() {
@@ -988,6 +1038,12 @@ func (h *vfC15) op(f []string) string {
 			return "bad-op"
 		}
 		return h.flap(f[1], a[0], a[1])
+	case f[0] == "ostale" && len(f) == 5:
+		a, ok := vfInts(f[2:])
+		if !ok || a[1] < 0 || a[2] < 0 {
+			return "bad-op"
+		}
+		return h.matrix(f[1], a[0], a[1], a[2])
 	case f[0] == "stale" && len(f) == 5:
 		a, ok := vfInts(f[2:])
 		if !ok {
@@ -1059,7 +1115,13 @@ func (h *vfC15) setMode(mode string) bool {
 // code), whether both row sets are unchanged, digest before and after the direct delete.
 // Mode "up" is the sanity run (the same requests do reach the storage code and change rows);
 // its effects are undone afterwards.
-func (h *vfC15) outage(mode string, u, pid int) string {
+func (h *vfC15) outage(mode string, u, pid int) string { return h.matrix(mode, u, pid, -1) }
+
+// ostale <mode> <u> <pidOld> <pidNew>: the same matrix, but the starting state is "the primary
+// is ahead of the cache": the cache holds pidOld for u (last synchronisation), the primary has
+// since been changed to pidNew, and user 1000+u exists in the primary only.  The handlers see
+// the cached profile, so the requests are built for pidOld.
+func (h *vfC15) matrix(mode string, u, pid, pidNew int) string {
 	state := h.state
 	user := vfUserName(u)
 	p := h.build(pid)
@@ -1070,6 +1132,15 @@ func (h *vfC15) outage(mode string, u, pid int) string {
 	if err, _, _, _ := h.sync(-1, false); err != nil {
 		return "err sync"
 	}
+	if pidNew >= 0 {
+		if err := state.SaveUserProfile(user, h.build(pidNew)); err != nil {
+			return "err save2"
+		}
+		if err := state.SaveUserProfile(vfUserName(1000+u), h.build(pidNew)); err != nil {
+			return "err save3"
+		}
+	}
+	h.mailer.take()
 	before := h.digest()
 	snapP, snapC := h.snapshot(h.rawP), h.snapshot(h.rawC)
 	if !h.setMode(mode) {
@@ -1103,7 +1174,20 @@ func (h *vfC15) outage(mode string, u, pid int) string {
 		}
 		out = append(out, name+"="+code)
 	}
-	// --- second factor checks that must keep working from the cache
+	// --- logins and second factor checks that must keep working from the cache
+	state.Config.Base.AllowedAuthBackendsForWebUI = []string{proto.AuthTypePassword}
+	{
+		req := httptest.NewRequest("POST", "/api/v0/login", strings.NewReader(
+			uf("username", user, "password", "password").Encode()))
+		req.Header.Set("Content-Type", "application/x-www-form-urlencoded")
+		rr, pn := vfServe(state.loginHandler, req)
+		code := "PANIC"
+		if pn == nil {
+			code = strconv.Itoa(rr.Code)
+		}
+		add("login", code)
+	}
+	state.Config.Base.AllowedAuthBackendsForWebUI = []string{proto.AuthTypeU2F, proto.AuthTypeTOTP, proto.AuthTypeBootstrapOTP}
 	if sec, ok := h.secrets[pid]; ok {
 		state.totpLocalTateLimitMutex.Lock()
 		delete(state.totpLocalRateLimit, user)
@@ -1133,8 +1217,12 @@ func (h *vfC15) outage(mode string, u, pid int) string {
 	}
 	add("u2fRegResp", h.post(state.u2fRegisterResponse, u2fRegisterRequesponsePath+user, user, nil, regBody))
 	add("u2fRegReq", h.post(state.u2fRegisterRequest, u2fRegustisterRequestPath+user, user, uf(), nil))
+	newCode := "123456"
+	if p.PendingTOTPSecret != nil { // the pending secret of build(): a valid code reaches the write branch
+		newCode, _ = totp.GenerateCode("JBSWY3DPEHPK3PXP", time.Now())
+	}
+	add("valTOTP", h.post(state.validateNewTOTP, totpValidateNewPath, user, uf("OTP", newCode), nil))
 	add("genTOTP", h.post(state.GenerateNewTOTP, totpGeneratNewPath, user, uf(), nil))
-	add("valTOTP", h.post(state.validateNewTOTP, totpValidateNewPath, user, uf("OTP", "123456"), nil))
 	add("mgTOTP", h.post(state.totpTokenManagerHandler, totpTokenManagementPath, user,
 		uf("username", user, "index", strconv.FormatInt(tidx, 10), "action", "Disable"), nil))
 	add("waRegBegin", h.post(state.webauthnBeginRegistration, webAutnRegististerRequestPath+user, user, uf(), nil))
@@ -1145,16 +1233,17 @@ func (h *vfC15) outage(mode string, u, pid int) string {
 	add("addUser", h.post(state.addUserHandler, addUserPath, "admin", uf("username", vfUserName(1000+u)), nil))
 	add("genBootstrap", h.post(state.generateBootstrapOTP, generateBoostrapOTPPath, "admin", uf("username", user), nil))
 	after := h.digest()
+	mails := h.mailer.take()
 	if mode == "up" {
 		h.setMode("up")
 		h.restore(h.rawP, snapP)
 		h.restore(h.rawC, snapC)
-		return fmt.Sprintf("ok sanity changed=%s %s | %s", vfBool(before != after), strings.Join(out, " "), h.digest())
+		return fmt.Sprintf("ok sanity changed=%s mails=%d %s | %s", vfBool(before != after), mails, strings.Join(out, " "), h.digest())
 	}
 	// --- the direct write (never loads a profile): last, it removes the user
 	add("deleteUser", h.post(state.deleteUserHandler, deleteUserPath, "admin", uf("username", user), nil))
 	h.setMode("up")
-	return fmt.Sprintf("ok unchanged=%s %s | %s | %s", vfBool(before == after), strings.Join(out, " "), after, h.digest())
+	return fmt.Sprintf("ok unchanged=%s mails=%d %s | %s | %s", vfBool(before == after), mails, strings.Join(out, " "), after, h.digest())
 }
 
 // stale <mode> <u> <pidOld> <pidNew>: the cache holds pidOld for u (last synchronisation), the
